@@ -7,6 +7,7 @@ package main
 // so a selector `q.Q7z` (or a bare `Q7z`) in the output identifies the path it was built from.
 
 import (
+	"unicode"
 	"fmt"
 	"go/ast"
 	"go/parser"
@@ -38,6 +39,7 @@ type FileTruth struct {
 	Hints    map[string][2]string // path -> (name, "alias"|"name")
 	Anon     map[string]bool
 	Preamble int
+	Preambles []string // the CgoPreamble texts, in the order given
 	Prefix   string
 	Pool     []string
 }
@@ -125,6 +127,7 @@ func truthOf(c *Case, f int, upto int) *FileTruth {
 			}
 		case OpCgo:
 			t.Preamble++
+			t.Preambles = append(t.Preambles, o.Str[0])
 		}
 	}
 	return t
@@ -362,6 +365,34 @@ func checkImports(t *FileTruth, src string) []ImportProblem {
 					}
 					if doc == nil {
 						add("C19", "preamble-detached", "import \"C\" has no doc comment (preamble not adjacent)")
+					} else {
+						// every preamble text, in the order given (repeats included), inside the doc
+						// comment; compared without white space (gofmt re-indents and trims comments)
+						squash := func(x string) string {
+							return strings.Map(func(r rune) rune {
+								if r <= ' ' || r == 0x7f || unicode.IsSpace(r) {
+									return -1
+								}
+								return r
+							}, x)
+						}
+						var all strings.Builder
+						for _, cm := range doc.List {
+							all.WriteString(squash(cm.Text))
+						}
+						rest := all.String()
+						for i, pt := range t.Preambles {
+							want := squash(pt)
+							if want == "" || strings.ContainsAny(pt, "`'") || strings.Contains(pt, "*/") {
+								continue // texts gofmt rewrites, or that end the comment themselves
+							}
+							k := strings.Index(rest, want)
+							if k < 0 {
+								add("C19", "preamble-text-missing", fmt.Sprintf("preamble block %d (%q) is not in the comment above import \"C\" at its place in the order given", i, pt))
+								break
+							}
+							rest = rest[k+len(want):]
+						}
 					}
 				}
 			}
